@@ -58,7 +58,8 @@ inductive Flow where
   deriving DecidableEq, Repr
 
 structure VmOp where
-  /-- operands consumed on the normal path, in order (`[]` and flow `func` for the variable-length `OP_FUNC`) -/
+  /-- operand bytes that belong to the instruction, in order: consumed on the fall-through path (peeked by
+  `OP_JUMP_BACK4`, which never falls through); `[]` and flow `func` for the variable-length `OP_FUNC` -/
   operands : List Operand
   /-- fixed number of slots popped (for `exec … none`, `func`, `constArray` the operand-dependent part is added by `step`) -/
   pops : Nat
@@ -80,7 +81,9 @@ def vmOp : Opcode → VmOp
   | .OP_BOOL_LOGICAL_AND | .OP_BOOL_LOGICAL_OR | .OP_VAR_LOGICAL_AND | .OP_VAR_LOGICAL_OR => ⟨[.off], 1, 0, .logical⟩
   | .OP_BOOL_TO_VAR => ⟨[], 0, 0, .invalid⟩
   | .OP_JUMP4 => ⟨[.off], 0, 0, .jump⟩
-  | .OP_JUMP_BACK4 => ⟨[], 0, 0, .jumpBack⟩      -- ReadGetOpcodeValue: nothing consumed
+  -- ReadGetOpcodeValue *peeks* the offset (m_CodePos stays at pc + 1), then m_CodePos -= offset; the four
+  -- bytes belong to the instruction (the next one starts behind them) but are never stepped over
+  | .OP_JUMP_BACK4 => ⟨[.off], 0, 0, .jumpBack⟩
   | .OP_STORE_INT0 => plain [] 0 1
   | .OP_STORE_INT1 => plain [.raw 1] 0 1
   | .OP_STORE_INT2 => plain [.raw 2] 0 1
@@ -188,10 +191,6 @@ inductive TableException where
   /-- `OP_DONE`: the table says length 0, the VM consumes the opcode byte.  Harmless: the only reader of the
   length, `AbsorbPrevOpcode`, is never reached with `OP_DONE` as previous opcode (`EmitEof` only compares). -/
   | doneLengthZero
-  /-- `OP_JUMP_BACK4`: table length 5, the VM *peeks* the offset and jumps relative to `pc + 1`; the four
-  bytes stay in the stream but are never decoded (the jump is unconditional); `AddJumpBackLocation` computes
-  the offset relative to the same point. -/
-  | jumpBackPeeks
   /-- `OP_STORE_FIELD_REF`: the table says 1 + 4, emitter (`EmitRef`) and VM (`storeTop<true>`) both use
   1 + 4 + 4.  Harmless only while the opcode is never absorbed (no peephole tests for it). -/
   | storeFieldRefShort
@@ -207,7 +206,6 @@ inductive TableException where
 
 def tableException : Opcode → Option TableException
   | .OP_DONE => some .doneLengthZero
-  | .OP_JUMP_BACK4 => some .jumpBackPeeks
   | .OP_STORE_FIELD_REF => some .storeFieldRefShort
   | .OP_FUNC => some .funcVariable
   | .OP_EXEC_CMD_COUNT1 | .OP_EXEC_CMD_METHOD_COUNT1 | .OP_EXEC_METHOD_COUNT1 | .OP_LOAD_CONST_ARRAY1 => some .countMarker
@@ -219,7 +217,6 @@ def agrees (o : Opcode) : Bool :=
   match tableException o with
   | none => vmLength o == some o.tableLength && vmStackEffect o == some o.tableStack
   | some .doneLengthZero => o.tableLength == 0 && vmLength o == some 1 && vmStackEffect o == some o.tableStack
-  | some .jumpBackPeeks => o.tableLength == 1 + sizeof_offset && vmLength o == some 1 && vmStackEffect o == some o.tableStack
   | some .storeFieldRefShort =>
       o.tableLength == 1 + sizeof_name && vmLength o == some (1 + sizeof_name + sizeof_evName)
         && vmStackEffect o == some o.tableStack
